@@ -1,0 +1,39 @@
+//go:build verif
+
+package harcollector
+
+import (
+	"fmt"
+
+	public_types "lunar/engine/streams/public-types"
+)
+
+// VerifGenerateHARBodies runs the collector's own HAR generation (generateHAR,
+// hence buildHARBody and apiStreamObfuscator.ObfuscateRequestBody /
+// ObfuscateResponseBody) with the given obfuscation settings and returns the
+// request and response bodies of the generated entry.
+// Exporting shim for /verif (property C16); no behaviour of its own.
+func VerifGenerateHARBodies(
+	obfuscateEnabled bool,
+	obfuscateExclusions []string,
+	apiStream public_types.APIStreamI,
+) (string, string, error) {
+	proc := &harCollectorProcessor{
+		obfuscateEnabled:    obfuscateEnabled,
+		obfuscateExclusions: obfuscateExclusions,
+	}
+	harObject, err := proc.generateHAR(apiStream)
+	if err != nil {
+		return "", "", err
+	}
+	if len(harObject.Log.Entries) != 1 {
+		return "", "", fmt.Errorf("expected one entry, got %d", len(harObject.Log.Entries))
+	}
+	entry := harObject.Log.Entries[0]
+	reqBody, okReq := entry.Request.Body.(string)
+	respBody, okResp := entry.Response.Content.(string)
+	if !okReq || !okResp {
+		return "", "", fmt.Errorf("body is not a string")
+	}
+	return reqBody, respBody, nil
+}
